@@ -38,7 +38,8 @@ pub enum Ev {
 
 pub struct Sys15 {
     pub cfg: Cfg,
-    pub sender: Sender,
+    /// never dropped after a subject panic (its locks are poisoned: dropping it would panic again, outside any guard)
+    pub sender: std::mem::ManuallyDrop<Sender>,
     pub handles: Vec<Option<Box<Toi>>>,
     /// salt -> toi of live objects
     pub objects: BTreeMap<u8, u128>,
@@ -50,6 +51,19 @@ pub struct Sys15 {
     pub wire_checked: u32,
     pub now_ms: u64,
     pub refusals: u32,
+}
+
+impl Drop for Sys15 {
+    fn drop(&mut self) {
+        if self.viol.iter().any(|v| v.0.starts_with("C15/panic")) {
+            // leak: the verdict is already recorded, the poisoned subject is not touched again
+            std::mem::forget(std::mem::take(&mut self.handles));
+        } else {
+            let h = std::mem::take(&mut self.handles);
+            drop(h);
+            unsafe { std::mem::ManuallyDrop::drop(&mut self.sender) };
+        }
+    }
 }
 
 fn bits_mask(bits: u8) -> u128 {
@@ -65,7 +79,7 @@ impl Sys15 {
         let mut s = SessSpec::basic(OtiSpec::new(Scheme::NoCode, 1424, 64, 0, true));
         s.toi_bits = cfg.bits;
         s.toi_init = Some(cfg.init.clone());
-        Sys15 { cfg: cfg.clone(), sender: s.sender().unwrap(), handles: vec![], objects: BTreeMap::new(), next_salt: 1, viol: vec![], ever_released: BTreeSet::new(), wrapped: false, reused: false, wire_checked: 0, now_ms: 0, refusals: 0 }
+        Sys15 { cfg: cfg.clone(), sender: std::mem::ManuallyDrop::new(s.sender().unwrap()), handles: vec![], objects: BTreeMap::new(), next_salt: 1, viol: vec![], ever_released: BTreeSet::new(), wrapped: false, reused: false, wire_checked: 0, now_ms: 0, refusals: 0 }
     }
     fn live(&self) -> BTreeSet<u128> {
         let mut l: BTreeSet<u128> = self.handles.iter().flatten().map(|h| h.get()).collect();
